@@ -257,7 +257,7 @@ class PktGen:
             f["default"] = ["val", b""]
         return f
 
-    def gen_elem(self, allow_refsel=True):
+    def gen_elem(self, allow_refsel=True, repeated=True):
         d = self.draw
         w = {"int": 4, "data": 3, "ref": 3 if self.earlier else 0, "refsel": 1 if allow_refsel else 0}
         k = wchoice(d, w)
@@ -267,7 +267,8 @@ class PktGen:
                 f["n"] = 1
             return f
         if k == "data":
-            return self.gen_data(name="_", in_elem=True)
+            # one remembered delimiter per field: only a REPEATED multi-matching unkept regex delimiter loses information
+            return self.gen_data(name="_", in_elem=repeated)
         if k == "ref":
             return self.gen_ref(name="_")
         return self.gen_refsel(name="_")
@@ -322,10 +323,14 @@ class PktGen:
 
     def gen_opt(self):
         d = self.draw
-        elem = self.gen_elem(allow_refsel=False)
+        elem = self.gen_elem(allow_refsel=False, repeated=False)
         if chance(d, 0.15):
             # content that may be empty: present-but-empty must still differ from absent
             elem = {"k": "data", "name": "_", "incl": False, "size": ["field", self.control()]}
+        if self.prof["regex"] and self.prof["regex_multi_unkept"] and chance(d, 0.2):
+            # an optional byte string ended by a regex delimiter that can match several strings and is not kept in the value
+            ent = d(st.sampled_from([r for r in REGEXES if r[3]]))
+            elem = {"k": "data", "name": "_", "incl": False, "size": ["regex", ent[0]] + ([int(ent[4])] if len(ent) > 4 else [])}
         when = self.spec_of(self.cond_expr())
         if self.prof["relpos"] and chance(d, self.prof.get("relpos_p", 0.2) / 2):
             # a condition on where we are inside the innermost packet (uses the offset / innermost-pkt-pos callable arguments)
